@@ -459,6 +459,15 @@ fn res<T>(o: OpOutcome<T>) -> Result<T, String> {
     }
 }
 
+/// short and interrupted descriptor calls for the File operations (half of the time none)
+fn gen_io_script() -> Vec<crate::sys::IoVerdict> {
+    use crate::sys::IoVerdict;
+    if cx().a(2) == 0 {
+        return Vec::new();
+    }
+    (0..1 + cx().a(3)).map(|_| if cx().a(3) == 0 { IoVerdict::Errno(libc::EINTR) } else { IoVerdict::Shorten(1 + cx().a(40) as usize) }).collect()
+}
+
 /// one access operation; returns (description, kind name, Ok / Err(panic message))
 fn one_op(w: &mut XWorld) -> (String, &'static str, Result<(), String>) {
     let size = w.size;
@@ -694,14 +703,18 @@ fn one_op(w: &mut XWorld) -> (String, &'static str, Result<(), String>) {
             let n = 1 + cx().a(room.min(5000) as u32) as usize;
             let mut f = crate::gmworld::memfd(0);
             use std::os::fd::AsRawFd;
+            // now and then write(2) accepts only part of what it is offered, or is interrupted
+            let script = gen_io_script();
+            cx().sys.io_script = script.iter().copied().collect();
             let r = res(catch(|| w.region.write_all_volatile_to(at, &mut f, n).map_err(|e| format!("{:?}", e))));
+            cx().sys.io_script.clear();
             let ok = r.and_then(|x| x).and_then(|()| {
                 let mut got = vec![0u8; n];
                 // SAFETY: pread into our own buffer.
                 let k = unsafe { libc::pread(f.as_raw_fd(), got.as_mut_ptr() as *mut libc::c_void, n, 0) };
                 if k == n as isize && got[..] == w.model[off..off + n] { Ok(()) } else { Err("the descriptor received wrong bytes".into()) }
             });
-            (format!("write_all_volatile_to({}, File, {})", off, n), "write_all_volatile_to(File)", ok)
+            (format!("write_all_volatile_to({}, File, {}) syscall outcomes {:?}", off, n, script), "write_all_volatile_to(File)", ok)
         }
         _ => {
             // descriptor read straight into the region (the syscall buffer must be mapped)
@@ -712,14 +725,20 @@ fn one_op(w: &mut XWorld) -> (String, &'static str, Result<(), String>) {
             // SAFETY: our own descriptor and buffer.
             unsafe {
                 libc::write(f.as_raw_fd(), data.as_ptr() as *const libc::c_void, n);
+                // (the file holds more than is asked for: a read that asks for too much gets it)
+                libc::write(f.as_raw_fd(), [0x77u8; 64].as_ptr() as *const libc::c_void, 64);
                 libc::lseek(f.as_raw_fd(), 0, libc::SEEK_SET);
             }
+            // now and then read(2) delivers less than it is asked for, or is interrupted
+            let script = gen_io_script();
+            cx().sys.io_script = script.iter().copied().collect();
             let r = res(catch(|| w.region.read_exact_volatile_from(at, &mut f, n).map_err(|e| format!("{:?}", e))));
+            cx().sys.io_script.clear();
             let ok = r.and_then(|x| x);
             if ok.is_ok() {
                 w.model[off..off + n].copy_from_slice(&data);
             }
-            (format!("read_exact_volatile_from({}, File, {})", off, n), "read_exact_volatile_from(File)", ok)
+            (format!("read_exact_volatile_from({}, File, {}) syscall outcomes {:?}", off, n, script), "read_exact_volatile_from(File)", ok)
         }
     }
 }
